@@ -112,12 +112,20 @@ def run_case(run, drv, case_seed):
                 bad = rng.choice([["--piece-length", "13"], ["--piece-length", "12345"]])
                 wrong = m["root"] if rng.random() < 0.7 else m["root"] + "-no-such-content"
                 cmds.append(("create-refused", sub + opts + bad + out + [wrong], expect))
+            if outkind in ("file", "existing") and not m["single"] and rng.random() < 0.5:
+                # ... or fails only AFTER hashing: a payload entry whose name cannot be encoded
+                cmds.append(("create-unencodable", sub + opts + out + [m["root"]], expect))
         case = {"case_seed": case_seed, "version": m["version"], "damaged": damaged,
                 "outkind": outkind}
         old_cwd = os.getcwd()
         os.chdir(work)
         try:
             for kind, argv, expect in cmds:
+                if kind == "create-unencodable":
+                    badname = os.path.join(os.fsencode(m["root"]), b"caf\xe9-latin1.bin")
+                    with open(badname, "wb") as fd:
+                        fd.write(b"x" * 10)
+                    kind = "create-refused"
                 before = snapshot(box)
                 fence = [os.path.join(box, "no-such-dir")] if kind == "ro" else [box]
                 raised = None
@@ -151,6 +159,9 @@ def run_case(run, drv, case_seed):
                         run.fail("impl-vs-spec", c, {"why": "a refused create changed the filesystem",
                                                      "changed": diff[:6], "raised": raised})
                     run.case(["create-refused", m["version"], outkind], True, sample=c, classes=["create-refused"])
+                    stray = os.path.join(os.fsencode(m["root"]), b"caf\xe9-latin1.bin")
+                    if os.path.exists(stray):
+                        os.remove(stray)
                     continue
                 else:
                     want = [os.path.relpath(expect, box)]
@@ -197,14 +208,16 @@ def run_case(run, drv, case_seed):
                         raised = type(exc).__name__
                 diff = changed(before, snapshot(box))
                 c = dict(case, library_default_output=kind)
-                if raised or diff != [os.path.relpath(default_out, box)]:
+                # (a creator that raises - e.g. for a directory that holds no file any more - is not what
+                # C18 judges; then nothing may have changed)
+                if (raised and diff) or (not raised and diff != [os.path.relpath(default_out, box)]):
                     run.fail("impl-vs-spec", c, {"why": "library create without an output path did not write exactly "
                                                         "<cwd>/<name>.torrent", "changed": diff[:5], "raised": raised})
                 run.case(["lib-default-out", kind], True, sample=c, classes=["lib-default-out"])
                 if os.path.lexists(default_out):
                     os.remove(default_out)
             # rename: free target, then occupied target
-            for occupied in (False, True, rng.choice(["dir", "link-to-dir", "link-to-file"])):
+            for occupied in (False, True, rng.choice(["dir", "link-to-dir", "link-to-file", "link-to-self"])):
                 src = os.path.join(outdir, "torename.torrent")
                 shutil.copy(m["path"], src)
                 rname = name
@@ -223,7 +236,9 @@ def run_case(run, drv, case_seed):
                 newp = os.path.join(outdir, os.path.basename(rname.rstrip("/")) + ".torrent")
                 if os.path.lexists(newp) and occupied is not True:
                     os.remove(newp)
-                if occupied in ("dir", "link-to-dir", "link-to-file"):
+                if occupied == "link-to-self":
+                    os.symlink(os.path.basename(src), newp)     # the new name is a link to the metafile itself
+                elif occupied in ("dir", "link-to-dir", "link-to-file"):
                     # the target name is taken by something that is not a regular file
                     aside = os.path.join(outdir, "aside-" + occupied)
                     if occupied == "dir":
